@@ -1,8 +1,9 @@
 package checks
 
 import (
-	"github.com/trustbloc/sidetree-go/pkg/vdr/sidetreelongform/dochandler"
 	"fmt"
+	"github.com/trustbloc/sidetree-go/pkg/document"
+	"github.com/trustbloc/sidetree-go/pkg/vdr/sidetreelongform/dochandler"
 	"github.com/trustbloc/sidetree-go/pkg/versions/1_0/model"
 	"strings"
 
@@ -168,6 +169,25 @@ func c03Case(c *fw.Case) {
 			if op19, perr := sut.SharedStack(sut.Proto()).Parser.Parse("did:ion", b.Request); perr == nil {
 				good := "did:ion:" + op19.UniqueSuffix + ":" + canon
 				if _, gerr := hd.ResolveDocument(good); gerr == nil {
+					// the DID the handler hands out for the request is the same for every spelling of the request
+					sp1, sp2 := gen.Spell(r, oracle.MustGeneric(b.ReqObj), gen.AllSpell), gen.Spell(r, oracle.MustGeneric(b.ReqObj), gen.AllSpell)
+					r0, e0 := hd.ProcessOperation(b.Request)
+					r1, e1 := hd.ProcessOperation(sp1)
+					r2, e2 := hd.ProcessOperation(sp2)
+					c.Count("handler-respellings", 1)
+					c.Evals(3)
+					// (a longer spelling may exceed the handler's operation size limit: only what it accepts is compared)
+					for i, res := range []*document.ResolutionResult{r0, r1, r2} {
+						if []error{e0, e1, e2}[i] != nil || res == nil {
+							continue
+						}
+						c.Count("handler-respellings-accepted", 1)
+						if id := fmt.Sprint(res.Document["id"]); id != good {
+							c.Failf("respelling-changes-did", map[string]interface{}{"request": string(b.Request), "processed": string([][]byte{b.Request, sp1, sp2}[i]), "did": id, "expected": good},
+								"the document handler names another DID for a re-serialization of a create request than for the request itself")
+							break
+						}
+					}
 					alias := nonCanonicalSpelling(r, op19.UniqueSuffix)
 					c.Count("suffix-alias-resolutions", 1)
 					c.Evals(1)
